@@ -370,7 +370,7 @@ pub fn run_random(rec: &mut Rec, seed: u64, run: u64, nops: usize) {
     // properties): a flow that starts in an epoch one staker has already claimed, and a flow stretched in its last epoch
     let start_witness = run % 16 == 2;
     let stretch_witness = run % 16 == 10;
-    let camp_asset = *gen::pick(&mut r, &["uusdc", "rwd2"]);
+    let camp_asset = *gen::pick(&mut r, &["uusdc", "rwd2", "lp"]);
     let camp_dur = DURS[0];
     for step in 0..nops {
         if (start_witness && step < 10) || (stretch_witness && step < 8) {
